@@ -134,4 +134,27 @@ func factsStores() {
 		append(storesAssigns(tser, "finalExtLset"), storesAssigns(tser, "completeLabelset")...))
 	emitList("storesBucketComplete", "pkg/store/bucket.go newBlockSeriesClient / blockSeriesClient.nextBatch: how the served label set is put together",
 		append(storesTail(storesAssigns(body(fn(bucket, "", "newBlockSeriesClient")), "extLset")), storesAssigns(body(fn(bucket, "blockSeriesClient", "nextBatch")), "completeLabelset")...))
+
+	// ---- C09
+	var codesArgs []string
+	for _, name := range []string{"ExpandPostings", "nextBatch"} {
+		for _, c := range calls(body(fn(bucket, "blockSeriesClient", name)), "Errorf") {
+			if callName(c) == "httpgrpc.Errorf" && len(c.Args) > 0 {
+				codesArgs = append(codesArgs, text(c.Args[0]))
+			}
+		}
+	}
+	emitList("storesLimitErrorCodes", "pkg/store/bucket.go blockSeriesClient.ExpandPostings / nextBatch: status codes of the limiter errors", codesArgs)
+	custom := parse("pkg/store/storepb/custom.go")
+	emitStr("storesWarnCodeCond", "pkg/store/storepb/custom.go GRPCCodeFromWarn: the ResourceExhausted test",
+		firstIfCond(body(fn(custom, "", "GRPCCodeFromWarn")), "ResourceExhausted"))
+	lim := parse("pkg/store/limiter.go")
+	limCond := "unknown"
+	ast.Inspect(body(fn(lim, "Limiter", "ReserveWithType")), func(n ast.Node) bool {
+		if s, ok := n.(*ast.IfStmt); ok && s.Init != nil {
+			limCond = text(s.Init) + "; " + text(s.Cond)
+		}
+		return true
+	})
+	emitStr("storesLimiterCond", "pkg/store/limiter.go Limiter.ReserveWithType: the reservation and its test", limCond)
 }
